@@ -15,6 +15,8 @@ import (
 	"fmt"
 	"io"
 	"strings"
+	"unicode"
+	"unicode/utf8"
 
 	"github.com/hattya/go.sh/ast"
 )
@@ -978,8 +980,8 @@ func (p *printer) arithExpr(list bool, left string, x ast.Word) {
 	}
 	end := x.Pos()
 	for i, w := range x {
-		// parts which are apart in the source; two literals in a row always
-		// are, even when the positions cannot tell (alias substitution)
+		// parts which are apart in the source; some pairs always are, even
+		// when the positions cannot tell (alias substitution)
 		if end.Before(w.Pos()) || i > 0 && lits(x[i-1], w) {
 			p.space()
 		}
@@ -995,10 +997,24 @@ func (p *printer) arithExpr(list bool, left string, x ast.Word) {
 	p.w.WriteString("))")
 }
 
+// lits reports whether a and b would have been scanned as something else
+// without a blank between them.
 func lits(a, b ast.WordPart) bool {
-	_, ok1 := a.(*ast.Lit)
-	_, ok2 := b.(*ast.Lit)
-	return ok1 && ok2
+	switch a := a.(type) {
+	case *ast.Lit:
+		if _, ok := b.(*ast.Lit); ok {
+			return true
+		}
+		// "$" would swallow what follows
+		return strings.HasSuffix(a.Value, "$")
+	case *ast.ParamExp:
+		// "$name" would go on in a literal which starts like a name
+		if b, ok := b.(*ast.Lit); ok && !a.Braces && a.Name != nil {
+			r, _ := utf8.DecodeRuneInString(b.Value)
+			return r == '_' || unicode.IsLetter(r) || unicode.IsDigit(r)
+		}
+	}
+	return false
 }
 
 func (p *printer) comment(c *ast.Comment) {
